@@ -10,6 +10,7 @@ package unused
 // reference forms in the chosen slots.
 
 import (
+	"go/ast"
 	"go/token"
 	"go/types"
 	"strings"
@@ -37,8 +38,11 @@ func c07Check(slots [ugNSlots]int) {
 		if referenced[obj] {
 			continue
 		}
+		if _, isConst := obj.(*types.Const); isConst && c07InGroup(a, obj) {
+			continue // the clause speaks of stand-alone constants (rule 10.1 keeps groups together)
+		}
 		k := a.prog.key(a.fset.Position(obj.Pos()), name)
-		vassert(a.verdict[k] == 2, "an unexported package-level object that no identifier refers to is not reported")
+		vassert(a.verdict[k] == 2, "an unexported package-level object that no identifier refers to is not reported: "+name)
 	}
 
 	// (a) deletion safety
@@ -98,3 +102,20 @@ func Harness_C07_three() {
 	c07Check(s)
 }
 
+
+// c07InGroup reports whether the constant is declared in a parenthesised
+// declaration with more than one specification.
+func c07InGroup(a *ugAnalysis, obj types.Object) bool {
+	for _, f := range a.files {
+		for _, d := range f.Decls {
+			gd, ok := d.(*ast.GenDecl)
+			if !ok || gd.Tok != token.CONST || !gd.Lparen.IsValid() || len(gd.Specs) < 2 {
+				continue
+			}
+			if gd.Pos() <= obj.Pos() && obj.Pos() < gd.End() {
+				return true
+			}
+		}
+	}
+	return false
+}
